@@ -13,6 +13,7 @@
 #include <string.h>
 #include <stdint.h>
 #include <errno.h>
+#include <signal.h>
 
 #include "util/threadpool.h"
 #include "simos.h"
@@ -430,6 +431,30 @@ static void on_deadlock(const char *state)
 	_exit(SIM_EXIT_DEADLOCK);
 }
 
+/* the component under test died (double free abort, SIGSEGV ...): that is a verdict on the pool, reported with the spec of the run */
+static void on_crash(int sig)
+{
+	static char buf[12288];
+	static volatile int once;
+	if (once++)
+		_exit(74);
+	spec_print(cur_spec, buf, sizeof(buf));
+	size_t n;
+	const uint32_t *rec = sim_sched_recorded(&n);
+	printf("VIOL idx=%llu kind=crash-signal-%d spec: %s rec=", (unsigned long long)cur_index, sig, buf);
+	for (size_t i = 0; i < n && i < 2000; i++)
+		printf("%u%s", rec[i], i + 1 < n ? "," : "");
+	printf("\n");
+	if (!replay_mode)
+		print_stats();
+	fflush(stdout);
+	_exit(74);
+}
+
+/* AddressSanitizer reports through its own path and then calls this (if the runtime is present) */
+void __sanitizer_set_death_callback(void (*cb)(void)) __attribute__((weak));
+static void on_asan_death(void) { on_crash(77); }
+
 static uint64_t spec_key(const spec_t *s)
 {
 	uint64_t h = 1469598103934665603ULL;
@@ -475,6 +500,9 @@ int main(int argc, char **argv)
 	char buf[12288];
 	setvbuf(stdout, NULL, _IOLBF, 0);
 	hset = calloc(HSET, sizeof(uint64_t));
+	signal(SIGSEGV, on_crash); signal(SIGABRT, on_crash); signal(SIGBUS, on_crash); signal(SIGILL, on_crash); signal(SIGFPE, on_crash);
+	if (__sanitizer_set_death_callback)
+		__sanitizer_set_death_callback(on_asan_death);
 	if (argc >= 3 && !strcmp(argv[1], "spec")) {
 		replay_mode = 1;
 		if (spec_parse(argv[2], &s) != 0) {
